@@ -1035,6 +1035,9 @@ func opExec(ctx *vk.Ctx, c opCase) error {
 	}
 	_, gnoSrc := render(frags)
 	res := runGno(gnoSrc)
+	if res.Crash != "" {
+		return fmt.Errorf("GnoVM crashed with a Go panic: %s\n--- source\n%s", res.Crash, gnoSrc)
+	}
 	if res.Rejected != "" {
 		return fmt.Errorf("GnoVM rejects a program of operator expressions that are valid Go: %s\n--- source\n%s", res.Rejected, gnoSrc)
 	}
